@@ -38,7 +38,7 @@ theorem ensureLoaded_eq_spec {E} (c : Codec E) (s : PSys) :
 
 theorem dWrite_eq_spec (cfg : Cfg) (D : Store) (op : Op) (o : Out) :
     dWrite cfg D op o = Spec.Persist.dWrite cfg D op o := by
-  cases op <;> cases o <;> simp [dWrite, Spec.Persist.dWrite, Gen.Persist.boltSameKey]
+  cases op <;> cases o <;> simp [dWrite, Spec.Persist.dWrite, Gen.Persist.boltSameKey, Gen.Store.preparedBeforeStore]
 
 /-- **Obligation C10.tie.** The model of collection.go / inmem.go / bolt (backing store before
     memory and publish, its error aborts; `loaded` only after a complete Load; every method
